@@ -124,6 +124,16 @@ elif beh.startswith("junk_batch:"):
             os.write(1, line)
     except BaseException:
         os._exit(0)
+elif beh == "flood_batches":
+    # endless one-member batch arrays, stdin never read: under a revision without batching the client answers every one
+    # of them with an error line, into a pipe nobody drains
+    out({"jsonrpc": "2.0", "method": "notifications/ready"})
+    blob = b'[{"jsonrpc":"2.0","method":"notifications/message","params":{"level":"info","data":"b"}}]\n' * 64
+    try:
+        while True:
+            os.write(1, blob)
+    except BaseException:
+        os._exit(0)
 elif beh == "flood_junk":
     out({"jsonrpc": "2.0", "method": "notifications/ready"})
     os.set_blocking(1, False)
